@@ -10,7 +10,8 @@ B=$("$VERIF/tools/build_repo.sh" $LIBV)
 OUT=$B/$V/$P
 SRC=$VERIF/harness/$P.c
 exec 8>"$B/.hlock"; flock 8
-if [ ! -x "$OUT" ] || [ "$SRC" -nt "$OUT" ] || [ "$VERIF/harness/kvh_common.h" -nt "$OUT" ]; then
+NEWER=$(find "$VERIF/harness" -maxdepth 1 -type f \( -name '*.inc' -o -name '*.h' \) -newer "$OUT" 2>/dev/null | head -1)
+if [ ! -x "$OUT" ] || [ "$SRC" -nt "$OUT" ] || [ -n "$NEWER" ]; then
   VER=$(cat "$B/gen/VERSION")
   COMMON="-w -g -DKALIGN_VERIF -DKALIGN_PACKAGE_NAME=\"kalign\" -DKALIGN_PACKAGE_VERSION=\"$VER\" -I$B/gen -I$B/src/lib/include -I$B/src/lib/src -I$B/src/src -I$VERIF/harness -DKV_SRC_DIR=\"$B/src\""
   case $V in
